@@ -345,7 +345,10 @@ pub fn step(stream: &[u8], visible: usize, hl: usize, rem: usize, c: usize, acts
     match r {
         Poll::Pending => {
             vassert!(rd.pending_returned, "C05|poll.spurious_pending|the decoder returned Pending although the transport did not");
-            vassert!(now < used || want == Spec::Eof, "C05|poll.pending_after_complete|Pending although the frame was complete");
+            if want == Spec::BadVarInt || want == Spec::BadRemaining || want == Spec::BadHeader {
+                vassert!(now < used, "C05+C06+C15+C20|poll.malformed_header_pending|the poll decoder keeps reading past a malformed fixed header (over-long length, zero length on a packet with a body, refused control byte) instead of rejecting it");
+            }
+            vassert!(now < used || want == Spec::Eof, "C05+C08+C15|poll.pending_after_complete|Pending although the frame (or its remaining-length field) was complete");
             vassert!(same_state(&st, stream, hl, rem, now), "C05|poll.state_invariant|caller-held state after Pending is not the state of the bytes consumed so far");
             vcover!(now > c, "progress then Pending");
         }
@@ -358,12 +361,12 @@ pub fn step(stream: &[u8], visible: usize, hl: usize, rem: usize, c: usize, acts
                 vassert!(got == Spec::Eof, "C14|poll.eof|end of stream inside a frame is not reported as an eof error");
             } else {
                 vassert!(!rd.pending_returned, "C05|poll.ready_after_pending|a result was produced in a poll in which the transport returned Pending");
-                vassert!(got == want, "C05|poll.step.result|result differs from one uninterrupted read of the same stream");
-                // the same obligation under the properties whose statement it also is
-                vassert!(got == want, "C15|poll.header|the poll decoder's header state machine reads the remaining-length field differently from the variable-byte-integer reference (value, number of length bytes, rejection of a fifth byte)");
+                // one obligation, labelled with every property whose statement it is (a second assertion of the
+                // same condition could never fail: Kani cuts the path after the first)
                 if want == Spec::BadVarInt || want == Spec::BadRemaining || want == Spec::BadHeader {
-                    vassert!(got == want, "C20|poll.malformed_header|the poll decoder does not reject a malformed fixed header (over-long length, zero length on a packet with a body, refused control byte) with its documented error");
+                    vassert!(got == want, "C05+C06+C15+C20|poll.malformed_header|the poll decoder does not reject a malformed fixed header (over-long length, zero length on a packet with a body, refused control byte) with its documented error");
                 }
+                vassert!(got == want, "C05+C08+C15|poll.step.result|result differs from one uninterrupted read of the same stream (value and width of the remaining-length field, packet, error)");
                 vassert!(now == used, "C05|poll.step.consumed|bytes consumed when the result is produced differ from one uninterrupted read");
                 if let Spec::Done(t, _) = got {
                     vassert!(t == now, "C05|poll.total_vs_consumed|reported total size differs from the bytes consumed");
